@@ -26,7 +26,7 @@ impl Poly {
     // P::rand(d, rng): d + 1 coefficients taken from the caller's stream (ark-poly re-samples the leading one until non-zero:
     // modelled as one draw that is non-zero)
     #[verifier::external_body] pub fn rand(d: usize, rng: &mut Rng) -> (r: Poly)
-        ensures r.coeffs@.len() == d + 1, r.wf(), final(rng).id == old(rng).id, final(rng).pos@ == old(rng).pos@ + d + 1,
+        ensures r.coeffs@.len() == d + 1, r.wf(), final(rng).id == old(rng).id, final(rng).pos@ == old(rng).pos@ + d + 1, final(rng).present == old(rng).present, old(rng).present@,
                 forall|i: int| 0 <= i <= d ==> (#[trigger] r.coeffs@[i])@ == draw(old(rng).id@, old(rng).pos@ + i as nat) { unimplemented!() }
     #[verifier::external_body] pub fn clone(&self) -> (r: Poly) ensures r.coeffs@ == self.coeffs@ { unimplemented!() }
 }
